@@ -812,6 +812,17 @@ class Gen:
             # the loop has NOT terminated there (LoopGuardTransformer collapses first-level ifs)
             body = [("if", [(self.fin_cond() if r.random() < 0.5 else self.make_guard(), body)], None)]
             self.feat("body-is-single-if")
+        cand_ = [c_ for c_ in self.fin if c_ not in {t[0] for t in self.typedefs} and c_ not in ("g", "l", "h", "j")
+                 and any(st[0] == "assign" and st[1] == c_ for st in body)]
+        if cand_ and self.data and guard == ("true",) and r.random() < 0.08:
+            # a finite variable WITHOUT initial value that is tested in a branch condition before its first assignment of the iteration
+            # (and only there): in the first iteration it still holds its arbitrary initial value
+            c_ = r.choice(cand_)
+            self.init = [st for st in self.init if not (st[0] == "assign" and st[1] == c_)]
+            zz = r.choice(self.data)
+            body = [("if", [(("atom", var(c_), "==", num(r.choice(sorted(self.fin[c_])))), [("assign", zz, ("poly", add(var(zz), num(1))))])], None)] + body
+            self.noinit.add(c_)
+            self.feat("uninitialised-finite-variable-tested-before-assignment")
         prog = Program(self.typedefs, self.init, guard, body)
         return prog
 
